@@ -209,15 +209,19 @@ static force_inline void reduce_32(unsigned int satot, unsigned int srtot,
 {
     uint32_t *ret = p;
 
-    satot = (satot + 0x8000) >> 16;
-    srtot = (srtot + 0x8000) >> 16;
-    sgtot = (sgtot + 0x8000) >> 16;
-    sbtot = (sbtot + 0x8000) >> 16;
+    /* The totals are sums of signed products accumulated modulo 2^32:
+     * interpret them as signed, so that a negative total (kernels with
+     * negative coefficients) is clamped to 0 and not to 0xff.
+     */
+    int32_t a = (int32_t)(satot + 0x8000) >> 16;
+    int32_t r = (int32_t)(srtot + 0x8000) >> 16;
+    int32_t g = (int32_t)(sgtot + 0x8000) >> 16;
+    int32_t b = (int32_t)(sbtot + 0x8000) >> 16;
 
-    satot = CLIP (satot, 0, 0xff);
-    srtot = CLIP (srtot, 0, 0xff);
-    sgtot = CLIP (sgtot, 0, 0xff);
-    sbtot = CLIP (sbtot, 0, 0xff);
+    satot = CLIP (a, 0, 0xff);
+    srtot = CLIP (r, 0, 0xff);
+    sgtot = CLIP (g, 0, 0xff);
+    sbtot = CLIP (b, 0, 0xff);
 
     *ret = ((satot << 24) | (srtot << 16) | (sgtot <<  8) | (sbtot));
 }
